@@ -11,7 +11,30 @@ vars == <<gvars, nmut>>
 SoupAlphabet == {"a", "*", "&", ".c", "%p", "{", "}", "(", ")", "[", "]", ":", ";", ",", "$v", "1px", "#f00", "\"s\"", "'", "#{",
                  "+", "-", "/", "not", "!important", "@media", "@if", "@else", "@each", "@for", "@function", "@return", "@mixin",
                  "@include", "@content", "@at-root", "@import", "@use", "@extend", "@error", "url(", "calc(", "in", "x",
-                 " ", "//", "/*", "\\", "<00>", "<80>", "<ff>", "<c3>"}
+                 " ", "//", "/*", "\\", "<00>", "<80>", "<ff>", "<c3>", "<cr>"}
+
+(* Mode "repeat": long flat inputs - one unit repeated n times between a   *)
+(* prefix and a suffix (nesting depth stays <= 2, size <= 64 KiB): chains of *)
+(* operators, compounds, list items, statements.  Emitted in the compressed  *)
+(* form [pre, unit, n, post]; the renderer repeats the unit.                 *)
+Repeats == { [shape |-> "binop-chain",   pre |-> <<"a", "{", "b", ":", "1">>, unit |-> <<"+", "1">>,       post |-> <<"}">>],
+             [shape |-> "minus-chain",   pre |-> <<"a", "{", "b", ":", "1">>, unit |-> <<" ", "-", " ", "1">>, post |-> <<"}">>],
+             [shape |-> "and-chain",     pre |-> <<"a", "{", "b", ":", "true">>, unit |-> <<" ", "and", " ", "true">>, post |-> <<"}">>],
+             [shape |-> "descendants",   pre |-> <<"a">>,                     unit |-> <<" ", "a">>,        post |-> <<"{", "b", ":", "c", "}">>],
+             [shape |-> "selector-list", pre |-> <<"a">>,                     unit |-> <<",", "a">>,        post |-> <<"{", "b", ":", "c", "}">>],
+             [shape |-> "compound",      pre |-> <<"a">>,                     unit |-> <<".c">>,            post |-> <<"{", "b", ":", "c", "}">>],
+             [shape |-> "space-list",    pre |-> <<"a", "{", "b", ":", "1">>, unit |-> <<" ", "1">>,        post |-> <<"}">>],
+             [shape |-> "comma-list",    pre |-> <<"a", "{", "b", ":", "1">>, unit |-> <<",", "1">>,        post |-> <<"}">>],
+             [shape |-> "declarations",  pre |-> <<"a", "{">>,                unit |-> <<"b", ":", "c", ";">>, post |-> <<"}">>],
+             [shape |-> "rules",         pre |-> <<>>,                        unit |-> <<"a", "{", "b", ":", "c", "}">>, post |-> <<>>],
+             [shape |-> "unit-square",   pre |-> <<"$x", ":", "1px", ";">>,   unit |-> <<"$x", ":", "$x", "*", "$x", ";">>, post |-> <<"a", "{", "b", ":", "$x", "}">>],
+             [shape |-> "unit-divide",   pre |-> <<"$x", ":", "1px", ";">>,   unit |-> <<"$x", ":", "1", "/", "$x", "/", "$x", ";">>, post |-> <<"a", "{", "b", ":", "$x", "}">>],
+             [shape |-> "interp-string", pre |-> <<"a", "{", "b", ":", "\"">>, unit |-> <<"#{", "1", "}">>, post |-> <<"\"", "}">>],
+             [shape |-> "concat",        pre |-> <<"a", "{", "b", ":", "x">>, unit |-> <<"+", "x">>,        post |-> <<"}">>],
+             [shape |-> "media-list",    pre |-> <<"@media", " ", "a">>,      unit |-> <<",", "a">>,        post |-> <<"{", "b", "{", "c", ":", "d", "}", "}">>],
+             [shape |-> "for-range",     pre |-> <<"@for", " ", "$i", " ", "from", " ">>, unit |-> <<"9">>, post |-> <<" ", "through", " ", "9223372036854775807", "{", "a", "{", "b", ":", "$i", "}", "}">>],
+             [shape |-> "else-chain",    pre |-> <<"@if", " ", "false", "{", "}">>, unit |-> <<"@else", " ", "if", " ", "false", "{", "}">>, post |-> <<"@else", "{", "a", "{", "b", ":", "c", "}", "}">>] }
+RepeatCounts == {7, 8, 19, 64, 128, 1000, 8000}
 
 Corpus == IF Mode = "mutate" THEN ndJsonDeserialize(IOEnv.CORPUS) ELSE <<>>
 
@@ -39,5 +62,8 @@ Next == \/ (SoupAdd /\ UNCHANGED nmut)
         \/ (Finish /\ (Mode = "mutate" => nmut >= 1) /\ (Mode = "derive" => Len(toks) >= MinLen) /\ UNCHANGED nmut)
 Spec == Init /\ [][Next]_vars
 
-EmitVec == done => PrintT(<<"VEC", ToJson([toks |-> toks, mode |-> Mode, depth |-> Depth])>>)
+EmitVec == (done /\ Mode # "repeat") => PrintT(<<"VEC", ToJson([toks |-> toks, mode |-> Mode, depth |-> Depth])>>)
+EmitRepeat == (done /\ Mode = "repeat") =>
+   \A r \in Repeats, n \in RepeatCounts :
+      PrintT(<<"VEC", ToJson([mode |-> "repeat", shape |-> r.shape, pre |-> r.pre, unit |-> r.unit, n |-> n, post |-> r.post, depth |-> 2, toks |-> <<>>])>>)
 =============================================================================
